@@ -213,9 +213,11 @@ def run_check(prop, tier, seed, jobs):
     coverage.update(getattr(mod, "EXTRA_COVERAGE", {}))
     enum = getattr(mod, "ENUMERATED", {}).get(tier)
     if enum:
-        size, what = enum(ncases) if callable(enum) else enum
-        coverage["enumerated_subspace"] = {"what": what, "size": size,
-                                           "completed": bool(size <= ncases and skipped == 0 and not dead and not internal)}
+        enum = enum(ncases) if callable(enum) else enum
+        size, what = enum[0], enum[1]
+        need = enum[2] if len(enum) > 2 else size  # number of planned cases that covers the whole sub-space
+        coverage["enumerated_subspace"] = {"what": what, "size": size, "cases_needed": need,
+                                           "completed": bool(need <= ncases and skipped == 0 and not dead and not internal)}
     assumptions = list(getattr(mod, "ASSUMPTIONS", [])) + [
         "trusted base: vmon/ref.py (self-tested), CPython fractions, the monitor wrappers",
         "inputs outside the generated classes / bounds of DESIGN.md section 4 are not explored",
